@@ -166,3 +166,45 @@ Proof.
   split; [intros u v _; unfold pdist, l1; lia|].
   split; [apply DB.pick_first_min_ok|]. vm_compute; reflexivity.
 Qed.
+
+(* ------------------------------------------------------------ the landmark overload
+   (Landmark Isomap; after fix F4 `f[landmarks[k]] = true`): row r is the geodesic row of
+   landmark lm[r]; all its entries are finite as well *)
+Lemma entry_sp_landmarks : forall g w N lm r src j,
+  nth_error lm r = Some src ->
+  DS.entry_of (DS.sp_landmarks g w N lm) r j = DS.sp g w N src j.
+Proof.
+  intros g w N lm r src j Hr. unfold DS.entry_of, DS.sp_landmarks, DS.sp.
+  assert (Hlt : r < length lm) by (apply nth_error_Some; congruence).
+  rewrite (nth_indep _ [] (DS.sp_row g w N 0)) by (rewrite map_length; auto).
+  rewrite map_nth. rewrite (nth_error_nth_default _ lm r src 0 Hr). reflexivity.
+Qed.
+
+Lemma main_cc_landmark_finite : forall dist knn N,
+  (forall k, k <= N - 1 -> is_knn_graph dist N k (knn k)) -> 1 <= N ->
+  forall k k' g, 1 <= k ->
+  find_neighbors is_connected_fixed knn N N k true = COk (k', g) ->
+  forall fl w pick lm, DS.nonneg_w g w -> DB.pick_ok pick -> Forall (fun v => v < N) lm ->
+  exists m, DM.landmark_matrix_fixed fl g w pick N lm = DM.DOk m /\
+    forall r j, r < length lm -> j < N -> exists z, DS.entry_of m r j = Some z.
+Proof.
+  intros dist knn N Hknn HN k k' g Hk Hfn fl w pick lm Hnn Hp Hlm.
+  destruct (main_cc_minimal dist knn N Hknn HN k Hk) as [jj [E [Hs _]]].
+  rewrite E in Hfn. inversion Hfn; subst. clear Hfn.
+  set (g := knn (kseq N k jj)) in *.
+  assert (Hk' : is_knn_graph dist N (kseq N k jj) g) by (apply Hknn; apply kseq_le).
+  pose proof (knn_graph_dwf _ _ _ _ Hk') as Hwf.
+  assert (HN0 : 0 < N) by lia.
+  exists (DS.sp_landmarks g w N lm). split.
+  - eapply DP.landmark_matrix_fixed_correct; eauto.
+  - intros r j Hr Hj.
+    destruct (nth_error lm r) as [src|] eqn:Er; [|apply nth_error_None in Er; lia].
+    rewrite (entry_sp_landmarks g w N lm r src j Er).
+    assert (Hsrc : src < N).
+    { rewrite Forall_forall in Hlm. apply Hlm. eapply nth_error_In; eauto. }
+    destruct (DS.sp g w N src j) as [z|] eqn:Esp; [eauto|]. exfalso.
+    assert (Hne : DS.sp g w N src j <> None).
+    { apply (DP.sp_finite_iff_reach g w N _ Hwf Hnn src j Hsrc Hj).
+      apply reach_path. apply Hs; auto. }
+    apply Hne; exact Esp.
+Qed.
